@@ -60,6 +60,19 @@ func (v vfRankValidator) Select(key string, vals [][]byte) (int, error) {
 	return best, nil
 }
 
+// vfFailDS: a datastore whose writes can be made to fail.
+type vfFailDS struct {
+	ds.Batching
+	failPut bool
+}
+
+func (d *vfFailDS) Put(ctx context.Context, k ds.Key, v []byte) error {
+	if d.failPut {
+		return errors.New("datastore write failed")
+	}
+	return d.Batching.Put(ctx, k, v)
+}
+
 type vfSent struct {
 	to  peer.ID
 	msg *dht_pb.Message
@@ -331,6 +344,18 @@ func VfFullRTPutProvide() {
 	}
 	var closest []peer.ID
 	var err error
+	if isPut && vfBool("localStoreWriteFails") {
+		fds := &vfFailDS{Batching: dssync.MutexWrap(ds.NewMapDatastore()), failPut: true}
+		d.valueStore = records.NewValueStore(fds, d.Validator, 0)
+		err = d.PutValue(ctx, key, []byte{1, 7})
+		vfWaitIdle()
+		vfAssert(err != nil, "fullrt/put-fails-when-the-record-cannot-be-stored-locally")
+		vfAssert(len(sent) == 0, "fullrt/nothing-is-sent-for-a-record-that-is-not-stored-locally")
+		_ = d.ProviderManager.Close()
+		vfWaitIdle()
+		vfReach("fullrt/put-local-failure-end")
+		return
+	}
 	if isPut {
 		rank := vfU8("rank")
 		err = d.PutValue(ctx, key, []byte{1, rank})
